@@ -1050,3 +1050,33 @@ def gen_json_text(rng, N, nmax=5):
         s["op"] = "json_text"
         out.append(s)
     return out
+
+
+_ATLAS = {}
+
+
+def atlas_connected(n):
+    """every connected simple graph on n <= 7 vertices up to isomorphism (networkx's graph atlas)"""
+    if n not in _ATLAS:
+        import networkx as nx
+        from networkx.generators.atlas import graph_atlas_g
+        for g in graph_atlas_g():
+            k = g.number_of_nodes()
+            if k >= 2 and nx.is_connected(g):
+                _ATLAS.setdefault(k, []).append(sorted((min(a, b), max(a, b)) for a, b in g.edges()))
+    return _ATLAS.get(n, [])
+
+
+def gen_bounds_atlas(rng, N, nmin=6, nmax=6):
+    """isomorphism classes of connected simple graphs on 6 (7) vertices, randomly relabelled: the
+    bounds report bracketed against the verified gonality beyond the exhaustive labelled families"""
+    pool = [(n, es) for n in range(nmin, nmax + 1) for es in atlas_connected(n)]
+    picks = pool if N >= len(pool) else rng.sample(pool, N)
+    out = []
+    for n, es in picks:
+        perm = list(range(n))
+        rng.shuffle(perm)
+        E = {(min(perm[a], perm[b]), max(perm[a], perm[b])): 1 for a, b in es}
+        out.append({"op": "bounds", "n": n, "edges": gen.present_edges(rng, E, split=False), "names": gen.gen_names(rng, n),
+                    "_kind": f"atlas{n}"})
+    return out
